@@ -7,8 +7,9 @@
 
    A one-source Dials is modelled just far enough to say what "reaches the
    config" means: the monitor re-stacks the defaults with the source's latest
-   value (Stack/Overlay.compose) and installs the result, or emits an error
-   event and keeps the old view. *)
+   value (Stack/Overlay.compose), runs Verify() (a parameter) on the result and
+   installs it, or emits an error event and keeps the old view; a blocking
+   report gets the verdict of its own re-stack back. *)
 From Coq Require Import List NArith ZArith Bool.
 From Dials Require Import Base.Outcome Base.Runes Reflect.Ty Reflect.Ptrify Stack.Overlay
   Transform.RType Transform.Manglers Transform.Transformer.
@@ -50,23 +51,52 @@ End TS.
 (* ---- a Dials with one watching source ---- *)
 Record dstate := DS { d_view : list val; d_errors : N }.
 
-(* monitor: valueUpdate -> updateSourceValue (compose; install or error event);
-   watchErrorReport -> error event *)
-Definition dials_step (fs : fields) (defaults : list val) (s : dstate) (r : report) : outcome dstate :=
-  match r with
-  | RError _ => Ok (DS (d_view s) (d_errors s + 1))
-  | RValue (_, v) =>
-      match compose fs defaults [v] with
-      | Ok view => Ok (DS view (d_errors s))
-      | Err _ => Ok (DS (d_view s) (d_errors s + 1))
-      | Panic p => Panic p
-      end
+(* updateSourceValue for one valueUpdate: re-stack the defaults with the new
+   value, run Verify() on the result, install it or emit an error event; the
+   boolean is what is sent on the update's `installed` channel (true = an
+   error: stacking or verification failed, nothing was installed) *)
+Definition restack (fs : fields) (defaults : list val) (verify : list val -> bool) (s : dstate) (v : val)
+  : outcome (dstate * bool) :=
+  match compose fs defaults [v] with
+  | Ok view =>
+      if verify view then Ok (DS view (d_errors s), false)
+      else Ok (DS (d_view s) (d_errors s + 1), true)
+  | Err _ => Ok (DS (d_view s) (d_errors s + 1), true)
+  | Panic p => Panic p
   end.
 
-Fixpoint dials_run (fs : fields) (defaults : list val) (s : dstate) (rs : list report) : outcome dstate :=
+(* monitor: valueUpdate -> updateSourceValue; watchErrorReport -> error event *)
+Definition dials_step (fs : fields) (defaults : list val) (verify : list val -> bool) (s : dstate) (r : report)
+  : outcome dstate :=
+  match r with
+  | RError _ => Ok (DS (d_view s) (d_errors s + 1))
+  | RValue (_, v) => omap fst (restack fs defaults verify s v)
+  end.
+
+Fixpoint dials_run (fs : fields) (defaults : list val) (verify : list val -> bool) (s : dstate) (rs : list report)
+  : outcome dstate :=
   match rs with
   | [] => Ok s
-  | r :: rest => s' <- dials_step fs defaults s r ;; dials_run fs defaults s' rest
+  | r :: rest => s' <- dials_step fs defaults verify s r ;; dials_run fs defaults verify s' rest
+  end.
+
+(* what the reporting watcher gets back.  Native WatchArgs: ReportNewValue
+   returns nil once the update is queued; BlockingReportNewValue waits for the
+   re-stack of this very update and returns its verdict. *)
+Definition native_report_ret (blocking : bool) (fs : fields) (defaults : list val) (verify : list val -> bool)
+  (s : dstate) (u : tval) : outcome (dstate * bool) :=
+  a <- restack fs defaults verify s (snd u) ;; Ok (fst a, blocking && snd a).
+
+(* wrapped watch arguments (transforming_source.go): an un-reversible value is
+   reported as an error AND returned as an error by both variants; otherwise
+   the variant of the embedded WatchArgs with the same name is called *)
+Definition ts_report_ret (fuel : nat) (E : env) (ms : list mangler) (x : xstate) (blocking : bool)
+  (fs : fields) (defaults : list val) (verify : list val -> bool) (s : dstate) (v : tval)
+  : outcome (dstate * bool) :=
+  match reverse fuel E ms x v with
+  | Ok u => native_report_ret blocking fs defaults verify s u
+  | Err _ => Ok (DS (d_view s) (d_errors s + 1), true)
+  | Panic p => Panic p
   end.
 
 (* the reports a wrapped watcher produces for the inner source's updates *)
@@ -90,8 +120,9 @@ Fixpoint native_reports (us : list (outcome tval)) : outcome (list report) :=
   | Panic p :: _ => Panic p
   end.
 
-(* Config: first stack *)
-Definition dials_config (fs : fields) (defaults : list val) (first : outcome tval) : outcome dstate :=
+(* Config: first stack, then the initial Verify() *)
+Definition dials_config (fs : fields) (defaults : list val) (verify : list val -> bool) (first : outcome tval)
+  : outcome dstate :=
   v <- first ;;
   view <- compose fs defaults [snd v] ;;
-  Ok (DS view 0).
+  if verify view then Ok (DS view 0) else Err 3.
